@@ -82,6 +82,10 @@ theorem fillOkK_eq (S : Schema) : fillOkK S = fillOkB S := by
   simp only [fillOkK, fillOkB, fillBeforeTypes_eq, createAndFillK_eq]
   rfl
 
+/-- `SchemaOk` (Proofs/PlacementNoInternal.lean) from the two kernel-evaluable Booleans -/
+theorem schemaOk_of_K (S : Schema) (hdet : detB S = true) (h : fillOkK S = true) : FromDom.SchemaOk S :=
+  schemaOk_of_B S hdet (fillOkK_eq S ▸ h)
+
 /-- **every schema-level guard the property theorems use**, as Booleans on the compiled tables -/
 structure Facts (S : Schema) : Prop where
   /-- no state of a content automaton has two edges with the same label (`Det`, `DetS`, C15's `hdet`) -/
